@@ -221,8 +221,12 @@ fn build_dict(ty: &str, rows: &[Row], salt: usize) -> ArrayRef {
 fn decode_dict(ty: &str, a: &dyn Array) -> Result<Vec<Row>, String> {
     let (_, vkind) = dict_kind(ty).unwrap();
     let d = a.as_any_dictionary();
-    let nk = d.normalized_keys();
     let values = d.values();
+    if values.is_empty() {
+        // empty dictionary: every row must be a null key
+        return if d.keys().null_count() == a.len() { Ok(vec![None; a.len()]) } else { Err("GARBLED-ROW:0".into()) };
+    }
+    let nk = d.normalized_keys();
     let mut out = vec![];
     for i in 0..a.len() {
         if d.keys().is_null(i) {
@@ -708,6 +712,73 @@ fn run_phys(t: &[&str]) -> String {
                 }
             })
         }
+        "dconcat" => {
+            // C03 dconcat <ktype> <variant> <keys/values;…> <pairs|->
+            //   keys: `n` | index;  values: `e` (empty) | hex valid, `n` | `n<hex>` NULL slot over those bytes
+            //   variant 0 concat, 1 concat_batches, 2 interleave (pairs), 3 interleave_record_batch (pairs)
+            let (kt, var, toks, pairs) = (t[2].to_string(), us(t[3]), t[4].to_string(), t[5].to_string());
+            guarded(move || {
+                let arrs: Vec<ArrayRef> = toks
+                    .split(';')
+                    .map(|d| {
+                        let (ks, vs) = d.split_once('/').unwrap();
+                        let entries: Vec<(Vec<u8>, bool)> = if vs == "-" {
+                            vec![]
+                        } else {
+                            vs.split(',')
+                                .map(|v| match v {
+                                    "e" => (vec![], true),
+                                    "n" => (vec![], false),
+                                    _ if v.starts_with('n') => (unhex(&v[1..]), false),
+                                    _ => (unhex(v), true),
+                                })
+                                .collect()
+                        };
+                        let values = build_dict_values("bin", &entries);
+                        let keys: Vec<Option<u64>> = if ks == "-" { vec![] } else { ks.split(',').map(|k| if k == "n" { None } else { Some(k.parse().unwrap()) }).collect() };
+                        macro_rules! mk {
+                            ($t:ty, $n:ty) => {
+                                Arc::new(DictionaryArray::<$t>::new(PrimitiveArray::<$t>::from(keys.iter().map(|k| k.map(|x| x as $n)).collect::<Vec<Option<$n>>>()), values)) as ArrayRef
+                            };
+                        }
+                        match kt.as_str() {
+                            "i8" => mk!(Int8Type, i8),
+                            "u16" => mk!(UInt16Type, u16),
+                            _ => mk!(Int32Type, i32),
+                        }
+                    })
+                    .collect();
+                let refs: Vec<&dyn Array> = arrs.iter().map(|a| a.as_ref()).collect();
+                let schema = Arc::new(Schema::new(vec![Field::new("c0", arrs[0].data_type().clone(), true)]));
+                let bs: Vec<RecordBatch> = arrs.iter().map(|a| RecordBatch::try_new(schema.clone(), vec![a.clone()]).unwrap()).collect();
+                let r = match var % 4 {
+                    0 => concat(&refs),
+                    1 => concat_batches(&schema, bs.iter()).map(|b| b.column(0).clone()),
+                    2 => interleave(&refs, &parse_pairs(&pairs)),
+                    _ => arrow_select::interleave::interleave_record_batch(&bs.iter().collect::<Vec<_>>(), &parse_pairs(&pairs)).map(|b| b.column(0).clone()),
+                };
+                match r {
+                    Ok(x) => {
+                        let d = x.as_any_dictionary();
+                        let vals = d.values().as_binary::<i32>();
+                        let nk = if vals.is_empty() { vec![] } else { d.normalized_keys() };
+                        let rows: Vec<String> = (0..x.len())
+                            .map(|i| {
+                                if d.keys().is_null(i) || vals.is_empty() || vals.is_null(nk[i]) {
+                                    "n".to_string()
+                                } else if vals.value(nk[i]).is_empty() {
+                                    "e".to_string()
+                                } else {
+                                    hex(vals.value(nk[i]))
+                                }
+                            })
+                            .collect();
+                        show_list(&rows)
+                    }
+                    Err(e) => err_class(&e),
+                }
+            })
+        }
         "ree" => {
             // C03 ree <variant> <run_ends> <value rows> <off> <len> <moff> <mask>: filter a sliced RunArray<Int32, Int32>
             let (var, ends, vals, off, len, moff, mask) =
@@ -733,7 +804,7 @@ fn run_case(line: &str) -> String {
     let t: Vec<&str> = line.split(' ').collect();
     assert_eq!(t[0], "C03");
     match t[1] {
-        "bfilter" | "btake" | "bconcat" | "binterleave" | "fsbfilter" | "fsbtake" | "ree" => run_phys(&t),
+        "bfilter" | "btake" | "bconcat" | "binterleave" | "fsbfilter" | "fsbtake" | "ree" | "dconcat" => run_phys(&t),
         "filter" => {
             // C03 filter <ty> <variant> <off> <rows> <moff> <mask>
             let (ty, var, off, rows, moff, mask) = (t[2], us(t[3]), us(t[4]), parse_rows(t[5]), us(t[6]), parse_mask(t[7]));
@@ -1169,7 +1240,11 @@ fn gen_arr_list(rng: &mut Rng, ty: &str, max_arrays: usize) -> (String, Vec<usiz
 
 fn gen_case(rng: &mut Rng) -> (String, String) {
     let ty = *rng.pick(ALL_TYPES);
-    match rng.below(29) {
+    let sel = rng.below(29);
+    // zip / merge / merge_n go through MutableArrayData, which concatenates dictionaries naively and
+    // panics when a narrow key type overflows: keep near-capacity i8/u8 dictionaries out of those ops
+    let ty = if (sel == 14 || (21..=27).contains(&sel)) && (ty == "dicti8" || ty == "dictu8") { "dictu16" } else { ty };
+    match sel {
         20 => gen_take_oob(rng, ty),
         21..=27 => gen_phys(rng, ty),
         28 => gen_zip_view_scalars(rng),
@@ -1304,8 +1379,45 @@ fn gen_bytes_tok(rng: &mut Rng, n: usize) -> String {
     format!("{}/{}/{}", show_list(&offs), hex(&data), nulls)
 }
 
+/// explicit dictionaries: few distinct byte values (incl. the empty string), duplicates, unused entries,
+/// NULL value slots over empty and over non-empty bytes that equal a valid value's bytes
+fn gen_dconcat(rng: &mut Rng) -> (String, String) {
+    let pool = ["e", "e", "78", "78", "7879", "00", "6162", "e"];
+    let k = 2 + rng.usize(3);
+    let mut toks = vec![];
+    let mut lens = vec![];
+    for _ in 0..k {
+        let nv = 1 + rng.usize(7);
+        let vals: Vec<String> = (0..nv)
+            .map(|_| {
+                let b = *rng.pick(&pool);
+                if rng.chance(1, 3) { if b == "e" { "n".to_string() } else { format!("n{}", b) } } else { b.to_string() }
+            })
+            .collect();
+        let n = rng.usize(9);
+        let keys: Vec<String> = (0..n).map(|_| if rng.chance(1, 6) { "n".to_string() } else { rng.usize(nv).to_string() }).collect();
+        toks.push(format!("{}/{}", show_list(&keys), vals.join(",")));
+        lens.push(n);
+    }
+    let var = rng.usize(4);
+    let total: usize = lens.iter().sum();
+    let pairs = if var >= 2 && total > 0 {
+        let nonempty: Vec<usize> = (0..k).filter(|i| lens[*i] > 0).collect();
+        let m = 1 + rng.usize(12);
+        show_list(&(0..m).map(|_| { let a = *rng.pick(&nonempty); format!("{}.{}", a, rng.usize(lens[a])) }).collect::<Vec<_>>())
+    } else {
+        "-".to_string()
+    };
+    let var = if var >= 2 && total == 0 { 0 } else { var };
+    let kt = *rng.pick(&["i8", "i32", "u16"]);
+    (format!("C03 dconcat {} {} {} {}", kt, var, toks.join(";"), pairs), format!("op:dconcat dvar:{} kt:{} nt", var, kt))
+}
+
 fn gen_phys(rng: &mut Rng, ty: &str) -> (String, String) {
     let wide = rng.below(2);
+    if rng.chance(1, 6) {
+        return gen_dconcat(rng);
+    }
     match rng.below(9) {
         0 | 1 => {
             let n = gen_len(rng).min(80);
